@@ -25,6 +25,12 @@ Variable U : unitab.
 Variable noshow : bool.
 Variable text : bytes.
 
+Lemma INV_eq l l' :
+  l_src l' = l_src l -> l_base l' = l_base l -> l_out l' = l_out l -> INV text l -> INV text l'.
+Proof.
+  intros Hs Hb Ho [[pre [Ht Hp]] Hout]. split; [exists pre; rewrite Hs, Hb; auto|rewrite Hb, Ho; exact Hout].
+Qed.
+
 Lemma closing_len endt l n :
   endt = gen_tokenEOF \/ closing endt l ->
   (endt = gen_tokenRightBraces /\ n = 2) \/ (endt = gen_tokenEndStatement /\ n = 2) \/ (endt = gen_tokenEndStatements /\ n = 3) ->
@@ -404,12 +410,21 @@ Qed.
 Lemma swpost_stay st : MI st -> m_p st < len (m_l st) -> swpost st (st, false).
 Proof. intros HM Hp. split; [exact HM|simpl; lia]. Qed.
 
+(* the same without the attribute case *)
+Definition swpost1 (st : mst) (r : mst * bool) : Prop :=
+  MI (fst r) /\
+  if snd r then apos st < apos (fst r) else apos st <= apos (fst r) /\ m_p (fst r) < len (m_l (fst r)).
+Lemma swpost1_sw st r : swpost1 st r -> swpost st r.
+Proof. destruct r as [s b]. intros [H1 H2]. split; [exact H1|]. destruct b; simpl in *; auto. Qed.
+Lemma swpost1_stay st : MI st -> m_p st < len (m_l st) -> swpost1 st (st, false).
+Proof. intros HM Hp. split; [exact HM|simpl; lia]. Qed.
+
 (* '<' in HTML and Markdown *)
 Lemma html_lt_safe st c :
-  MI st -> m_p st < len (m_l st) -> safe (html_lt U st c) (swpost st) nofail.
+  MI st -> m_p st < len (m_l st) -> safe (html_lt U st c) (swpost1 st) nofail.
 Proof.
   intros HM Hp. pose proof HM as (Hi & Hp' & Ht). unfold html_lt.
-  destruct (negb (c =? 60)); [simpl; apply swpost_stay; assumption|]. cbv zeta.
+  destruct (negb (c =? 60)); [simpl; apply swpost1_stay; assumption|]. cbv zeta.
   sstep; [sstep; destruct (_ && has_prefix _ _) eqn:Ecd|cbn [andb]].
   1: (* CDATA *)
     set (p6 := m_p st + 6); set (l6 := addcol 6 (m_l st));
@@ -424,7 +439,7 @@ Proof.
     rewrite H1; simpl; b2p; split;
       [apply MI_same; [exact HM|eapply same_core_trans; [apply sc_addcol|exact Hs1]| |
          rewrite (same_core_len _ _ Hs1); change (len l6) with (len (m_l st))]; unfold p6 in *; lia
-      |left; unfold apos; cbn; destruct Hs1 as (_ & Hb & _); cbn in Hb; unfold p6 in *; lia].
+      |unfold apos; cbn; destruct Hs1 as (_ & Hb & _); cbn in Hb; unfold p6 in *; lia].
   all: (eapply safe_bind; [apply scan_tag_safe; change (len (addcol 1 (m_l st))) with (len (m_l st)); lia|]);
     intros [[l1 name] q] (Hs & H1 & H2); simpl in Hs, H1, H2;
     change (len (addcol 1 (m_l st))) with (len (m_l st)) in H2;
@@ -434,6 +449,252 @@ Proof.
         unfold L3; destruct (nonempty name); [destruct (bytes_eqb name s_script); [|destruct (bytes_eqb name s_style)]|];
         repeat split));
     simpl; split; [apply MI_same; [exact HM|exact Hs3|lia|rewrite (same_core_len _ _ Hs3); lia]
-                  |left; unfold apos; cbn; destruct Hs3 as (_ & Hb & _); lia].
+                  |unfold apos; cbn; destruct Hs3 as (_ & Hb & _); lia].
+Qed.
+
+(* inside a tag *)
+Lemma tag_ctx_safe fc st c :
+  MI st -> get (l_src (m_l st)) (m_p st) = Some c -> safe (tag_ctx U fc st c) (swpost st) nofail.
+Proof.
+  intros HM Hgc. pose proof (get_some _ _ _ Hgc) as Hp. fold (len (m_l st)) in Hp.
+  pose proof HM as (Hi & Hp' & Ht). unfold tag_ctx. cbv zeta.
+  eapply safe_bind with (Q' := fun e => e = true -> c = 62).
+  { unfold orm, andm. destruct (N.eqb_spec c 62); [simpl; auto|].
+    destruct (c =? 47); [|simpl; discriminate]. destruct (m_p st <? len (m_l st)); [|simpl; discriminate].
+    unfold idx_is, idx. rewrite Hgc. simpl. destruct (N.eqb_spec c 62); [contradiction|discriminate]. }
+  intros endtag He. destruct endtag.
+  { set (l1 := set_tctx fc (set_tag [] (set_ctx (l_tctx (m_l st)) (m_l st)))).
+    assert (Hs1 : same_core (m_l st) l1) by (unfold l1; repeat split).
+    rewrite (He eq_refl). change (62 =? 47) with false. simpl.
+    { split; [apply MI_same; [exact HM|exact Hs1|lia|rewrite (same_core_len _ _ Hs1); lia]|].
+      unfold apos; cbn. rewrite (same_core_len _ _ Hs1). lia. } }
+  destruct (negb (isASCIISpace c)); [|simpl; apply swpost_stay; assumption].
+  eapply safe_bind; [apply scan_attribute_safe; lia|].
+  intros [[l1 attr] next] (Hs & H1 & H2). simpl in Hs, H1, H2.
+  pose proof (same_core_len _ _ Hs) as Hl1.
+  set (l1a := set_att attr l1). assert (Hsa : same_core (m_l st) l1a) by (eapply same_core_trans; [exact Hs|repeat split]).
+  assert (Hla : len l1a = len (m_l st)) by (apply same_core_len; exact Hsa). clearbody l1a.
+  destruct (N.ltb_spec (m_p st) next).
+  2:{ simpl. split; [apply MI_same; [exact HM|exact Hsa|lia|lia]|]. unfold apos; cbn. destruct Hsa as (_ & Hb & _). unfold len in *. lia. }
+  destruct (nonempty attr && (next <? len l1a)) eqn:Ene.
+  2:{ simpl. split; [apply MI_same; [exact HM|exact Hsa|lia|lia]|]. left. unfold apos; cbn. destruct Hsa as (_ & Hb & _). lia. }
+  b2p. sstep. cbv zeta.
+  set (isq := (c0 =? 34) || (c0 =? 39)).
+  set (l2 := if isq then addcol 1 l1a else l1a).
+  set (p2 := if isq then next + 1 else next).
+  assert (Hs2 : same_core (m_l st) l2) by (unfold l2; destruct isq; [eapply same_core_trans; [exact Hsa|auto with sc]|exact Hsa]).
+  assert (Hl2 : len l2 = len (m_l st)) by (apply same_core_len; exact Hs2).
+  assert (Hp2 : next <= p2 /\ p2 <= len (m_l st)) by (unfold p2; destruct isq; lia).
+  assert (Hi2 : INV text l2) by (eapply same_core_INV; eauto).
+  destruct (containsURL (l_tag l2) attr).
+  - destruct (emit_text_spec (mset_lp l2 p2 st) l2 Hi2) as (l3 & He3 & Hi3 & Hb3 & Hl3 & Hc3 & Hs3); [cbn; lia|].
+    rewrite He3, bind_ok. cbn in Hb3, Hl3.
+    set (l4 := set_ctx _ l3). assert (Hi4 : INV text l4) by (eapply same_core_INV; [|exact Hi3]; repeat split).
+    destruct (emit0_spec gen_tokenStartURL l4 Hi4) as (l5 & H5 & Hi5 & Hb5 & Hl5 & Hc5 & Hs5). rewrite H5. simpl.
+    destruct Hs2 as (_ & Hb2 & _). cbn in Hb5.
+    split; [apply MI_resync; [exact Hi5|lia]|]. left. unfold apos; cbn. lia.
+  - simpl. split.
+    + unfold MI. cbn. split; [eapply INV_eq; [| | |exact Hi2]; reflexivity|].
+      change (len (set_ctx _ (set_tidx p2 l2))) with (len l2). lia.
+    + left. unfold apos; cbn. destruct Hs2 as (_ & Hb2 & _). lia.
+Qed.
+
+(* end of an attribute value *)
+Lemma attr_value_safe l p : l_tidx l <= p -> p <= len l -> exists v, attr_value l p = Ok v.
+Proof.
+  intros H1 H2. unfold attr_value.
+  assert (E : (p <? l_tidx l) || (len l <? p) = false) by (apply orb_false_intro; apply N.ltb_ge; lia).
+  rewrite E. eauto.
+Qed.
+
+Lemma attr_ctx_safe fc st c :
+  MI st -> m_p st < len (m_l st) -> is_attr (l_ctx (m_l st)) = true ->
+  safe (attr_ctx U fc st c) (swpost st) nofail.
+Proof.
+  intros HM Hp Hattr. pose proof HM as (Hi & Hp' & Ht). unfold attr_ctx. cbv zeta.
+  match goal with |- context [if negb ?b then _ else _] => destruct b end; cbn [negb];
+    [|simpl; apply swpost_stay; assumption].
+  set (st0 := mset_quote 0 st).
+  assert (HM0 : MI st0) by exact HM.
+  eapply safe_bind with (Q' := fun st1 => MI st1 /\ apos st1 = apos st /\ m_p st1 < len (m_l st1)).
+  - destruct (m_url st0).
+    + destruct (flush_text_spec st0 HM0) as (l1 & H1 & Hi1 & Hb1 & Hl1 & Hc1 & Hs1). rewrite H1, bind_ok.
+      destruct (emit0_spec gen_tokenEndURL l1 Hi1) as (l2 & H2 & Hi2 & Hb2 & Hl2 & Hc2 & Hs2). rewrite H2. simpl.
+      split; [apply MI_resync; [exact Hi2|lia]|]. unfold apos in *. cbn in *. lia.
+    + assert (Hsame : MI st0 /\ apos st0 = apos st /\ m_p st0 < len (m_l st0)) by (split; [exact HM0|split; [reflexivity|exact Hp]]).
+      assert (Hset : forall v, MI (mset_lp (set_tctx v (m_l st)) (m_p st) st0) /\
+                     apos (mset_lp (set_tctx v (m_l st)) (m_p st) st0) = apos st /\
+                     m_p (mset_lp (set_tctx v (m_l st)) (m_p st) st0) < len (m_l (mset_lp (set_tctx v (m_l st)) (m_p st) st0))).
+      { intros v. split; [apply MI_same; [exact HM0|repeat split|cbn; lia|cbn; exact Hp']|split; [reflexivity|exact Hp]]. }
+      destruct (bytes_eqb (l_att (m_l st)) s_type); [|simpl; exact Hsame].
+      destruct (bytes_eqb (l_tag (m_l st)) s_script).
+      { destruct (attr_value_safe (m_l st) (m_p st) Ht Hp') as [v Hv]. rewrite Hv, bind_ok.
+        destruct (bytes_eqb v gen_lex_moduleType); [simpl; exact Hsame|].
+        destruct (nonempty (trim_space U v)); [|simpl; exact Hsame].
+        destruct (equal_fold U (trim_space U v) gen_lex_jsonLDMimeType); [simpl; apply Hset|].
+        destruct (negb (equal_fold U (trim_space U v) gen_lex_jsMimeType)); simpl; [apply Hset|exact Hsame]. }
+      destruct (bytes_eqb (l_tag (m_l st)) s_style); [|simpl; exact Hsame].
+      destruct (attr_value_safe (m_l st) (m_p st) Ht Hp') as [v Hv]. rewrite Hv, bind_ok.
+      destruct (nonempty (trim_space U v) && negb (equal_fold U (trim_space U v) gen_lex_cssMimeType)); simpl;
+        [apply Hset|exact Hsame].
+  - intros st1 (HM1 & Ha1 & Hp1). simpl. pose proof HM1 as (Hi1 & Hp1' & Ht1).
+    split.
+    + unfold MI. cbn. split; [eapply INV_eq; [| | |exact Hi1]; reflexivity|].
+      change (len (set_tidx 0 (set_att [] (set_ctx gen_ContextTag (m_l st1))))) with (len (m_l st1)). lia.
+    + cbn [fst snd]. destruct (c =? 62).
+      * right. split; [exact Ha1|]. split; [exact Hattr|]. reflexivity.
+      * split; [unfold apos in *; cbn; lia|].
+        change (len _) with (len (m_l st1)). exact Hp1.
+Qed.
+
+(* obligations on the generated facts: the closing tags are longer than the skips *)
+Lemma isEndScript_len s : isEndScript s = true -> 9 <= nlen s.
+Proof.
+  unfold isEndScript. intros H. apply andb_prop in H. destruct H as [H _].
+  assert (G : (9 <=? gen_isEndScript_len) = true) by reflexivity. b2p. lia.
+Qed.
+Lemma isEndStyle_len s : isEndStyle s = true -> 8 <= nlen s.
+Proof.
+  unfold isEndStyle. intros H. apply andb_prop in H. destruct H as [H _].
+  assert (G : (8 <=? gen_isEndStyle_len) = true) by reflexivity. b2p. lia.
+Qed.
+
+Lemma sc_mark_if_nl l i : same_core l (mark_if_nl l i).
+Proof. unfold mark_if_nl. destruct (get (l_src l) i); [destruct (_ =? 10)|]; repeat split. Qed.
+
+(* a step that moves p forward by k inside the current source and keeps the core *)
+Lemma sw_move st l' k :
+  MI st -> same_core (m_l st) l' -> m_p st + k < len (m_l st) ->
+  forall st', m_l st' = l' -> m_p st' = m_p st + k -> swpost st (st', false).
+Proof.
+  intros (Hi & Hp & Ht) Hs Hk st' Hl' Hp'. pose proof (same_core_len _ _ Hs) as Hlen.
+  destruct Hs as (Hs1 & Hb & Hs3).
+  split; [unfold MI; cbn [fst]; rewrite Hl', Hp'; split; [eapply INV_eq; [exact Hs1|apply Hb|exact Hs3|exact Hi]|lia]|].
+  cbn [fst snd]. unfold apos. rewrite Hl', Hp'. lia.
+Qed.
+
+Lemma css_ctx_safe fc isHTML st c :
+  MI st -> m_p st < len (m_l st) -> swpost st (css_ctx fc isHTML st c, false).
+Proof.
+  intros HM Hp. unfold css_ctx. cbv zeta.
+  destruct (isHTML && (c =? 60) && isEndStyle (drop (m_p st) (l_src (m_l st)))) eqn:E.
+  - apply andb_prop in E. destruct E as [_ E]. apply isEndStyle_len in E. rewrite nlen_drop in E. fold (len (m_l st)) in E.
+    eapply (sw_move st _ 7); [exact HM| |lia|reflexivity|reflexivity].
+    eapply same_core_trans; [apply sc_mark_if_nl|]. repeat split.
+  - destruct ((c =? 34) || (c =? 39)); [|apply swpost_stay; assumption].
+    eapply (sw_move st _ 0); [exact HM| |lia|reflexivity|cbn; lia]. repeat split.
+Qed.
+
+Lemma json_ctx_safe fc isHTML st c :
+  MI st -> m_p st < len (m_l st) -> swpost st (json_ctx fc isHTML st c, false).
+Proof.
+  intros HM Hp. unfold json_ctx. cbv zeta.
+  destruct (isHTML && (c =? 60) && isEndScript (drop (m_p st) (l_src (m_l st)))) eqn:E.
+  - apply andb_prop in E. destruct E as [_ E]. apply isEndScript_len in E. rewrite nlen_drop in E. fold (len (m_l st)) in E.
+    eapply (sw_move st _ 8); [exact HM| |lia|reflexivity|reflexivity].
+    eapply same_core_trans; [apply sc_mark_if_nl|]. repeat split.
+  - destruct (c =? 34); [|apply swpost_stay; assumption].
+    eapply (sw_move st _ 0); [exact HM| |lia|reflexivity|cbn; lia]. repeat split.
+Qed.
+
+Lemma str_ctx_safe fc isHTML back quote json isend skip st c :
+  (forall s, isend s = true -> skip + 1 <= nlen s) ->
+  MI st -> m_p st < len (m_l st) ->
+  safe (str_ctx fc isHTML back quote json isend skip st c) (fun s => swpost st (s, false)) nofail.
+Proof.
+  intros Hend HM Hp. unfold str_ctx. cbv zeta.
+  destruct (c =? 92).
+  { repeat sstep; simpl; try (apply swpost_stay; assumption).
+    eapply (sw_move st _ 1); [exact HM| |b2p; lia|reflexivity|reflexivity]. repeat split. }
+  destruct (c =? quote).
+  { simpl. eapply (sw_move st _ 0); [exact HM| |lia|reflexivity|cbn; lia]. repeat split. }
+  destruct (c =? 60); [|simpl; apply swpost_stay; assumption].
+  destruct (isHTML && isend (drop (m_p st) (l_src (m_l st)))) eqn:E; [|simpl; apply swpost_stay; assumption].
+  apply andb_prop in E. destruct E as [_ E]. apply Hend in E. rewrite nlen_drop in E. fold (len (m_l st)) in E.
+  simpl. eapply (sw_move st _ skip); [exact HM| |lia|reflexivity|reflexivity].
+  eapply same_core_trans; [apply sc_mark_if_nl|]. repeat split.
+Qed.
+
+Lemma js_ctx_safe fc isHTML st c :
+  MI st -> m_p st < len (m_l st) -> safe (js_ctx fc isHTML st c) (fun s => swpost st (s, false)) nofail.
+Proof.
+  intros HM Hp. unfold js_ctx. cbv zeta.
+  destruct (isHTML && (c =? 60) && isEndScript (drop (m_p st) (l_src (m_l st)))) eqn:E.
+  { apply andb_prop in E. destruct E as [_ E]. apply isEndScript_len in E. rewrite nlen_drop in E. fold (len (m_l st)) in E.
+    simpl. eapply (sw_move st _ 8); [exact HM| |lia|reflexivity|reflexivity].
+    eapply same_core_trans; [apply sc_mark_if_nl|]. repeat split. }
+  assert (H0 : forall st', m_l st' = m_l st -> m_p st' = m_p st -> swpost st (st', false)).
+  { intros st' H1 H2. eapply (sw_move st (m_l st) 0); [exact HM|auto with sc|lia|exact H1|lia]. }
+  assert (H1 : forall st', m_p st + 1 < len (m_l st) -> m_l st' = addcol 1 (m_l st) -> m_p st' = m_p st + 1 -> swpost st (st', false)).
+  { intros st' Hlt Ha Hb. eapply (sw_move st _ 1); [exact HM|apply sc_addcol|exact Hlt|exact Ha|exact Hb]. }
+  destruct (m_jsc st =? 1).
+  { simpl. destruct ((c =? 10) || (c =? 13)); apply H0; reflexivity. }
+  destruct (m_jsc st =? 2).
+  { repeat sstep; simpl; try (apply H0; reflexivity). apply H1; [b2p; lia|reflexivity|reflexivity]. }
+  destruct ((c =? 47) && (m_p st + 1 <? len (m_l st))) eqn:E2.
+  { b2p. sstep. destruct (c0 =? 47); [simpl; apply H1; [lia|reflexivity|reflexivity]|].
+    destruct (c0 =? 42); simpl; [apply H1; [lia|reflexivity|reflexivity]|apply H0; reflexivity]. }
+  destruct ((c =? 34) || (c =? 39)); simpl; [|apply H0; reflexivity].
+  eapply (sw_move st _ 0); [exact HM| |lia|reflexivity|cbn; lia]. repeat split.
+Qed.
+
+Lemma ctx_switch_safe fc isHTML st c :
+  MI st -> get (l_src (m_l st)) (m_p st) = Some c ->
+  safe (ctx_switch U fc isHTML st c) (swpost st) nofail.
+Proof.
+  intros HM Hgc. pose proof (get_some _ _ _ Hgc) as Hp. fold (len (m_l st)) in Hp.
+  unfold ctx_switch. cbv zeta.
+  destruct (l_ctx (m_l st) =? gen_ContextMarkdown) eqn:Emd.
+  { eapply safe_bind; [apply md_url_safe; assumption|]. intros [st1 cont] [HM1 H1]. simpl in HM1, H1.
+    destruct cont; [simpl; split; [exact HM1|exact H1]|]. destruct H1 as [H1 H2].
+    eapply safe_mono; [apply html_lt_safe; assumption| |auto].
+    intros [s b] [Hs1 Hs2]. split; [exact Hs1|]. simpl in *. destruct b; [left|]; lia. }
+  destruct (l_ctx (m_l st) =? gen_ContextHTML).
+  { eapply safe_mono; [apply html_lt_safe; assumption|apply swpost1_sw|auto]. }
+  destruct (l_ctx (m_l st) =? gen_ContextTag); [apply tag_ctx_safe; assumption|].
+  destruct ((l_ctx (m_l st) =? gen_ContextQuotedAttr) || (l_ctx (m_l st) =? gen_ContextUnquotedAttr)) eqn:Eat;
+    [apply attr_ctx_safe; assumption|].
+  destruct (l_ctx (m_l st) =? gen_ContextCSS); [simpl; apply css_ctx_safe; assumption|].
+  destruct (l_ctx (m_l st) =? gen_ContextCSSString).
+  { eapply safe_bind; [apply str_ctx_safe; [intros s0 Hs0; apply isEndStyle_len in Hs0; lia|assumption|assumption]|].
+    intros s0 Hs0. exact Hs0. }
+  destruct (l_ctx (m_l st) =? gen_ContextJS).
+  { eapply safe_bind; [apply js_ctx_safe; assumption|]. intros s0 Hs0. exact Hs0. }
+  destruct (l_ctx (m_l st) =? gen_ContextJSString).
+  { eapply safe_bind; [apply str_ctx_safe; [intros s0 Hs0; apply isEndScript_len in Hs0; lia|assumption|assumption]|].
+    intros s0 Hs0. exact Hs0. }
+  destruct (l_ctx (m_l st) =? gen_ContextJSON); [simpl; apply json_ctx_safe; assumption|].
+  destruct (l_ctx (m_l st) =? gen_ContextJSONString).
+  { eapply safe_bind; [apply str_ctx_safe; [intros s0 Hs0; apply isEndScript_len in Hs0; lia|assumption|assumption]|].
+    intros s0 Hs0. exact Hs0. }
+  simpl. apply swpost_stay; assumption.
+Qed.
+
+Lemma bottom_safe st c :
+  MI st -> m_p st < len (m_l st) ->
+  safe (bottom st c) (fun r => match r with Again s' => MI s' /\ apos st < apos s' | Stop _ => False end) nofail.
+Proof.
+  intros HM Hp. pose proof HM as (Hi & Hp' & Ht). unfold bottom. cbv zeta.
+  assert (Hmv : forall l' p' st', same_core (m_l st) l' -> m_p st < p' -> p' <= len (m_l st) ->
+                 m_l st' = l' -> m_p st' = p' -> MI st' /\ apos st < apos st').
+  { intros l' p' st' Hs H1 H2 Hl' Hp2. pose proof (same_core_len _ _ Hs) as Hlen. destruct Hs as (Hs1 & Hb & Hs3).
+    split; [unfold MI; rewrite Hl', Hp2; split; [eapply INV_eq; [exact Hs1|apply Hb|exact Hs3|exact Hi]|lia]|].
+    unfold apos. rewrite Hl', Hp2. lia. }
+  destruct (c =? 10).
+  2:{ simpl. apply (Hmv (if isStartChar c then addcol 1 (m_l st) else m_l st) (m_p st + 1));
+        [destruct (isStartChar c); auto with sc|lia|lia|reflexivity|reflexivity]. }
+  sstep; [sstep|].
+  all: try (change (len (newline (m_l st))) with (len (m_l st)); b2p; lia).
+  all: match goal with |- context [apply_code_block ?l ?p] => set (L := l); set (P := p) end.
+  all: assert (HsL : same_core (m_l st) L) by (unfold L; try destruct (x =? 13); repeat split).
+  all: assert (HP : m_p st < P /\ P <= len (m_l st)) by (unfold P; try destruct (x =? 13); b2p; gs; unfold len in *; cbn [l_src newline set_cdev set_col set_line] in *; lia).
+  all: pose proof (same_core_len _ _ HsL) as HlL.
+  all: assert (Hacb : safe (let* (l1, q) := apply_code_block L P in Ok (Again (mset_lp l1 q st)))
+            (fun r => match r with Again s' => MI s' /\ apos st < apos s' | Stop _ => False end) nofail) by
+    (eapply safe_bind; [apply apply_code_block_safe; lia|]; intros [l1 q] (Hs1 & H1 & H2); simpl in *;
+     apply (Hmv l1 q); [eapply same_core_trans; [exact HsL|exact Hs1]|lia|lia|reflexivity|reflexivity]).
+  all: destruct ((l_ctx L =? gen_ContextTabCodeBlock) || (l_ctx L =? gen_ContextSpacesCodeBlock)); [exact Hacb|].
+  all: destruct (l_ctx L =? gen_ContextMarkdown); [destruct (m_sol st); [exact Hacb|]|].
+  all: simpl; apply (Hmv L P); [exact HsL|lia|lia|reflexivity|reflexivity].
 Qed.
 End ScanProofs.
